@@ -207,7 +207,7 @@ theorem hrefsOf_printTy : ∀ t : Ty, hrefsOf (printTy t) = []
   | .resultOk t => by simp [printTy, hrefsOf, hrefsOf_printTy t]
   | .result0 => by simp [printTy, hrefsOf]
   | .list t => by simp [printTy, hrefsOf, hrefsOf_printTy t]
-  | .flist _ _ => by simp [printTy, hrefsOf]
+  | .flist _ t => by simp [printTy, hrefsOf, hrefsOf_printTy t]
   | .map a b => by simp [printTy, hrefsOf, hrefsOf_printTy a, hrefsOf_printTy b]
   | .future1 t => by simp [printTy, hrefsOf, hrefsOf_printTy t]
   | .future0 => by simp [printTy, hrefsOf]
@@ -331,8 +331,6 @@ theorem paired_defineType (p : Bool) (t : TypeDef) : Paired (defineType p t).1 :
       (paired_of_noHref (hrefsOf_resultTy _ _))) (paired_of_noHref rfl)) (paired_of_noHref (hrefsOf_docsOps _))
   | self ty => exact paired_aliasOps _ _ _ _
   | alias ty => exact paired_aliasOps _ _ _ _
-  | future => exact paired_of_noHref rfl
-  | stream => exact paired_of_noHref rfl
   | handle => exact paired_of_noHref rfl
   | unknown => exact paired_of_noHref rfl
 
@@ -789,8 +787,6 @@ theorem docLits_defineType (p : Bool) (t : TypeDef) :
   | alias ty =>
     right; simp only [List.append_nil]
     exact docLits_mono (by intro op h; simp [aliasOps, h]) (docLits_docsOps t.docs)
-  | future => left; exact ⟨_, List.mem_singleton.mpr rfl⟩
-  | stream => left; exact ⟨_, List.mem_singleton.mpr rfl⟩
   | handle => left; exact ⟨_, List.mem_singleton.mpr rfl⟩
   | unknown => left; exact ⟨_, List.mem_singleton.mpr rfl⟩
 
